@@ -108,6 +108,9 @@ type Options struct {
 	// without waiting for the other catch events to be armed (the winner of an event-based
 	// gateway is then determined while the other alternatives are still on their way)
 	EagerDeliver bool
+	// EagerAnswer: a task is answered as soon as ITS request exists, without waiting for what the
+	// preceding steps cause (an answer racing the events delivered just before it)
+	EagerAnswer bool
 }
 
 func DefaultOptions() Options {
@@ -507,6 +510,28 @@ func Run(runIdx int, p *prog.Program, sch *Schedule, o Options) []Rec {
 					}
 					pre[k] = v
 				}
+			}
+			if o.EagerAnswer && st.Op == "answer" {
+				pre = map[string]int{"req:" + st.Node: st.Occ}
+			}
+			if o.EagerAnswer && st.Op == "deliver" {
+				// ... and a delivery waits for the listeners it addresses (and for their hosts to
+				// be waiting), not for what the steps before it cause
+				keep := map[string]int{}
+				for k, v := range pre {
+					if strings.HasPrefix(k, "listen:") || strings.HasPrefix(k, "arm:") || strings.HasPrefix(k, "visit:") {
+						keep[k] = v
+					}
+				}
+				for _, n := range p.Nodes {
+					if n.Kind != "boundary" {
+						continue
+					}
+					if v, ok := pre["req:"+n.Attached]; ok {
+						keep["req:"+n.Attached] = v
+					}
+				}
+				pre = keep
 			}
 			// "arm:" counters are known through a hook only: wait for them briefly and go on
 			// regardless; a delivery that could not be synchronised is recorded as racy
